@@ -382,10 +382,17 @@ fn run_docs(input: &Value) -> CaseOut {
         "status": String::from_utf8_lossy(&status), "metrics": String::from_utf8_lossy(&metrics),
         "side_check_errors": side_err,
     });
+    // Only a few cases carry the complete /metrics text into Coq; for the others the HELP/TYPE comment lines
+    // (static text, about half of the volume) are dropped.  What remains is still a complete exposition text with
+    // every input-dependent line; the harness's own reader above has read the complete text in every case.
+    let full = input["full"].as_bool().unwrap_or(true);
+    let metrics_coq: Vec<u8> = if full { metrics.clone() } else {
+        metrics.split_inclusive(|b| *b == b'\n').filter(|l| !l.starts_with(b"# HELP ") && !l.starts_with(b"# TYPE ")).flatten().cloned().collect()
+    };
     let strs = |v: &Vec<String>| coq_list(v.iter(), |s| coq_bytes(s.as_bytes()));
     let coq = format!(
         "{{| d_exp := {{| x_tals := {}; x_repos := {}; x_msgs := {} |}}; d_impl := {{| o_status := {}; o_metrics := {} |}}; d_side := {} |}}",
-        strs(&tals), strs(&repos), strs(&msgs), coq_bytes(&status), coq_bytes(&metrics), coq_bool(side_err.is_empty()));
+        strs(&tals), strs(&repos), strs(&msgs), coq_bytes(&status), coq_bytes(&metrics_coq), coq_bool(side_err.is_empty()));
     let nontrivial = tals.iter().chain(repos.iter()).chain(msgs.iter()).any(|s| needs_escape(s));
     CaseOut { obs, coq, nontrivial }
 }
@@ -393,7 +400,7 @@ fn run_docs(input: &Value) -> CaseOut {
 fn docs_input(tals: Vec<String>, repos: Vec<String>, rsync: Vec<Value>, rrdp: Vec<Value>, pubpoints: Vec<Value>, unsafe_: &str,
               clients: Value, done: bool, nums: u64) -> Value {
     json!({"tals": tals, "repos": repos, "rsync": rsync, "rrdp": rrdp, "pubpoints": pubpoints, "unsafe": unsafe_,
-           "clients": clients, "done": done, "nums": nums})
+           "clients": clients, "done": done, "nums": nums, "full": false})
 }
 
 fn gen_docs(rng: &mut Rng, tier: &str) -> Vec<(String, Value)> {
@@ -418,8 +425,9 @@ fn gen_docs(rng: &mut Rng, tier: &str) -> Vec<(String, Value)> {
              json!({"uri": "https://example.org/n.xml", "notify": 304, "payload": null, "serial": 9, "session": true, "reason": 1, "dur_ms": 7, "log": []}),
              json!({"uri": "https://example.com/n.xml", "notify": -2, "payload": 404, "serial": 9, "session": true, "reason": 2, "dur_ms": 7, "log": ["\\"]})],
         vec![], "reject", json!(["192.0.2.1", "2001:db8::1", "192.0.2.7"]), false, 3)));
+    for c in cases.iter_mut() { if c.0.starts_with("boundary") { c.1["full"] = json!(true) } }
     // (c) structured random
-    let n = if tier == "thorough" { 400 } else { 60 };
+    let n = if tier == "thorough" { 400 } else { 40 };
     for i in 0..n {
         let mut r = rng.fork();
         let tals: Vec<String> = (0..r.below(3)).map(|_| if r.chance(1, 4) { ["ripe", "arin", "apnic"][r.below(3) as usize].to_string() } else { nasty(&mut r, 12) }).collect();
@@ -439,7 +447,9 @@ fn gen_docs(rng: &mut Rng, tier: &str) -> Vec<(String, Value)> {
             "log": (0..r.below(3)).map(|_| nasty(&mut r, 24)).collect::<Vec<_>>()})).collect();
         let clients = if r.chance(1, 3) { json!(["192.0.2.1", "2001:db8::2"]) } else { Value::Null };
         let unsafe_ = *r.pick(&["accept", "warn", "reject"]);
-        cases.push(("random.metrics".to_string(), docs_input(tals, repos, rsync, rrdp, pubpoints, unsafe_, clients, r.chance(3, 4), r.next())));
+        let mut inp = docs_input(tals, repos, rsync, rrdp, pubpoints, unsafe_, clients, r.chance(3, 4), r.next());
+        if i < 8 || i % 16 == 0 { inp["full"] = json!(true) }
+        cases.push((if inp["full"] == json!(true) { "random.metrics.full_text" } else { "random.metrics" }.to_string(), inp));
     }
     cases
 }
